@@ -26,6 +26,7 @@ type c10Row struct {
 type c10Batch struct {
 	Rows    []c10Row `json:"rows"`
 	PauseMs int      `json:"pause_ms"` // pause before this batch
+	Empty   bool     `json:"empty,omitempty"` // an empty batch: a request that buffers nothing
 }
 
 type c10Case struct {
@@ -37,25 +38,71 @@ type c10Case struct {
 	BufTimeMs int        `json:"buftime_ms"` // 0 = 1h
 	Parts     int        `json:"parts"`      // 0 = no partition function
 	Batches   []c10Batch `json:"batches"`
+	Mode      string     `json:"mode,omitempty"`
+	TrickleEmpty bool    `json:"trickle_empty,omitempty"`
 }
 
 func genC10() *rapid.Generator[c10Case] {
 	return rapid.Custom(func(t *rapid.T) c10Case {
-		c := c10Case{
-			Comp:      pick(t, "comp", []string{"snappy", "none", "zstd"}),
-			BufRows:   pick(t, "bufrows", []int{1 << 20, 2, 4, 9}),
-			BufBytes:  pick(t, "bufbytes", []int{1 << 30, 400, 1500, 6000}),
-			RGRows:    pick(t, "rgrows", []int{1 << 20, 2, 3, 6}),
-			RGBytes:   pick(t, "rgbytes", []int{1 << 30, 300, 1000, 4000}),
-			BufTimeMs: pick(t, "buftime", []int{0, 0, 60, 150, 400}),
-			Parts:     pick(t, "parts", []int{0, 2, 5}),
+		far, farB := 1<<20, 1<<30
+		c := c10Case{Comp: pick(t, "comp", []string{"snappy", "none", "zstd"}), Parts: pick(t, "parts", []int{0, 2, 5})}
+		mode := pick(t, "mode", []string{"mixed", "binding", "binding", "trickle"})
+		c.Mode = mode
+		switch mode {
+		case "mixed":
+			c.BufRows = pick(t, "bufrows", []int{far, 2, 4, 9})
+			c.BufBytes = pick(t, "bufbytes", []int{farB, 400, 1500, 6000})
+			c.RGRows = pick(t, "rgrows", []int{far, 2, 3, 6})
+			c.RGBytes = pick(t, "rgbytes", []int{farB, 300, 1000, 4000})
+			c.BufTimeMs = pick(t, "buftime", []int{0, 0, 60, 150, 400})
+		case "binding":
+			// exactly one limit is within reach, so that limit alone has to fire
+			c.BufRows, c.BufBytes, c.RGRows, c.RGBytes = far, farB, far, farB
+			switch pick(t, "which", []string{"bufrows", "bufbytes", "bufbytes", "rgrows", "rgbytes"}) {
+			case "bufrows":
+				c.BufRows = pick(t, "bufrows", []int{2, 4, 9, 17})
+			case "bufbytes":
+				c.BufBytes = pick(t, "bufbytes", []int{400, 1500, 6000, 2500})
+				if c.Parts == 0 {
+					c.Parts = pick(t, "bparts", []int{0, 3, 5})
+				}
+			case "rgrows":
+				c.RGRows = pick(t, "rgrows", []int{2, 3, 6})
+			default:
+				c.RGBytes = pick(t, "rgbytes", []int{300, 1000, 4000})
+			}
+		default: // trickle: only the time limit can fire, requests keep arriving inside every window
+			c.BufRows, c.BufBytes, c.RGRows, c.RGBytes = far, farB, far, farB
+			c.BufTimeMs = pick(t, "ttime", []int{300, 400})
+			c.TrickleEmpty = chance(t, "allempty", 60)
 		}
 		n := rapid.IntRange(1, 7).Draw(t, "nbatches")
+		if mode == "binding" {
+			n = rapid.IntRange(2, 10).Draw(t, "nbatchesb")
+		}
+		if mode == "trickle" {
+			n = rapid.IntRange(13, 18).Draw(t, "nbatchest")
+		}
 		for i := 0; i < n; i++ {
 			b := c10Batch{PauseMs: pick(t, "pause", []int{0, 0, 5, 30, 120})}
 			k := rapid.IntRange(1, 5).Draw(t, "nrows")
+			pads := []int{0, 0, 40, 200, 900, 3000}
+			if mode == "trickle" {
+				b.PauseMs = c.BufTimeMs * rapid.IntRange(55, 85).Draw(t, "tpause") / 100
+				if i == 0 {
+					b.PauseMs = 0
+				}
+				k = rapid.IntRange(1, 2).Draw(t, "tnrows")
+				pads = []int{0, 40}
+				// followers: mostly requests that buffer nothing (empty batches), so
+				// only the clock can flush the first batch
+				b.Empty = i > 0 && (c.TrickleEmpty || chance(t, "empty", 40))
+			}
+			if mode == "binding" {
+				pads = []int{0, 40, 200, 200, 600}
+			}
 			for j := 0; j < k; j++ {
-				b.Rows = append(b.Rows, c10Row{Part: unif(t, "part", 5), Pad: pick(t, "pad", []int{0, 0, 40, 200, 900, 3000})})
+				b.Rows = append(b.Rows, c10Row{Part: unif(t, "part", 5), Pad: pick(t, "pad", pads)})
 			}
 			c.Batches = append(c.Batches, b)
 		}
@@ -101,13 +148,17 @@ func runC10Once(c c10Case) (*Violation, bool, bool) {
 	}
 	eng.Start()
 	bg := context.Background()
+	var book *AckBook
 	defer func() {
 		sctx, cancel := context.WithTimeout(bg, 20*time.Second)
-		eng.Stop(sctx)
+		eng.Stop(sctx) // receivers stay alive until the engine has delivered its last answers
 		cancel()
+		book.StopReceivers()
 	}()
-	var clock int64
-	book := NewAckBook(func() int64 { clock++; return clock })
+	// every done channel is unbuffered with a live receiver goroutine that stamps
+	// the wall-clock time of the receive, so "answered within" is measured on the
+	// answer itself, not on when the harness next polls
+	book = NewAckBook(func() int64 { return time.Now().UnixNano() })
 	const allowance = 1500 * time.Millisecond
 	timeBound := time.Duration(c.BufTimeMs)*time.Millisecond + 100*time.Millisecond + allowance
 
@@ -151,7 +202,14 @@ func runC10Once(c c10Case) (*Violation, bool, bool) {
 			}
 			m = newC10Model()
 		}
-		b := book.NewBatch("good", "buf", 0, 1)
+		if bt.Empty {
+			eb := book.NewBatch("empty", "unbuf", 0, 1)
+			if err := eng.IngestRows(bg, eb.Rows, eb.Ch); err != nil {
+				return violf("IngestRows(empty): %v", err), false, false
+			}
+			continue
+		}
+		b := book.NewBatch("good", "unbuf", 0, 1)
 		parts := map[string]bool{}
 		for _, r := range bt.Rows {
 			id++
@@ -220,6 +278,14 @@ func runC10Once(c c10Case) (*Violation, bool, bool) {
 			if missing := waitAll([]*WBatch{p.b}, left); missing != nil {
 				return violf("batch #%d was accepted %v ago and still has no answer: MaxBufferedTime %d ms + 100 ms tick + %v allowance exceeded, no Flush/Stop called", p.b.N, time.Since(p.accepted).Round(time.Millisecond), c.BufTimeMs, allowance), true, false
 			}
+			// answered — but when? (requests that keep arriving must not push an
+			// earlier batch's answer out: the bound runs from ITS acceptance)
+			if vals := p.b.values(); len(vals) > 0 {
+				took := time.Unix(0, vals[0].T).Sub(p.accepted)
+				if took > timeBound {
+					return violf("batch #%d was answered %v after its acceptance: more than MaxBufferedTime %d ms + 100 ms tick + %v allowance, no Flush/Stop called (later requests kept arriving: %d batches in the script)", p.b.N, took.Round(time.Millisecond), c.BufTimeMs, allowance, len(c.Batches)), true, false
+				}
+			}
 		}
 		if len(m.batches) >= 2 {
 			timeMulti = true
@@ -245,6 +311,7 @@ func runC10(c c10Case) *Violation {
 	if c.BufTimeMs > 0 {
 		Ev.Class("time-trigger-configured")
 	}
+	Ev.Class("mode=" + c.Mode)
 	if nt {
 		Ev.NonTrivial(jsonKey(c))
 		if Ev.WantSample() {
@@ -255,7 +322,7 @@ func runC10(c c10Case) *Violation {
 }
 
 func TestC10(t *testing.T) {
-	Ev.Rule = "case = limit settings (MaxBufferedRows/Bytes, MaxRowGroupRows/Bytes each either out of reach or small; MaxBufferedTime 1h or 60-400 ms; none/snappy/zstd; 0/2/5 partitions) x 1-7 batches of 1-5 rows (rows of 20 B to 3 KB spread over partitions) with 0-120 ms pauses; responsive in-memory stores; Flush and Stop are not called while obligations are open. A model of the buffer (rows, marshaled bytes without prefixes, per-partition rows/bytes; reset whenever an ack shows a flush happened) says when a limit is certainly reached: every buffered batch must then be answered within 1.5 s; with MaxBufferedTime configured every batch must be answered within MaxBufferedTime + 100 ms tick + 1.5 s of its acceptance. Timing verdicts need two further reproductions. Non-trivial: a non-time trigger fired on a buffer holding a multi-partition batch, or a time flush covered >=2 batches; distinct by case."
+	Ev.Rule = "case = limit settings (MaxBufferedRows/Bytes, MaxRowGroupRows/Bytes each either out of reach or small; MaxBufferedTime 1h or 60-400 ms; none/snappy/zstd; 0/2/5 partitions) x 1-7 batches of 1-5 rows (rows of 20 B to 3 KB spread over partitions) with 0-120 ms pauses; generator modes: mixed limits, exactly one binding limit (the others out of reach, 2-10 batches), and a trickle (only MaxBufferedTime 300-400 ms can fire; 13-18 small or empty batches arriving every 0.55-0.85 of the window); done channels are unbuffered with live receivers that stamp the wall-clock time of the answer; responsive in-memory stores; Flush and Stop are not called while obligations are open. A model of the buffer (rows, marshaled bytes without prefixes, per-partition rows/bytes; reset whenever an ack shows a flush happened) says when a limit is certainly reached: every buffered batch must then be answered within 1.5 s; with MaxBufferedTime configured every batch must be answered within MaxBufferedTime + 100 ms tick + 1.5 s of ITS OWN acceptance (measured on the answer's receive time). Timing verdicts need two further reproductions. Non-trivial: a non-time trigger fired on a buffer holding a multi-partition batch, or a time flush covered >=2 batches; distinct by case."
 	Ev.Assumptions = []string{"'immediately' is judged with a 1.5 s allowance", "byte obligations only when the marshaled bytes without length prefixes already reach the limit"}
 	runChecks(t, "limits", 100, 2500, genC10(), runC10)
 }
